@@ -200,8 +200,50 @@ def handleProc (toks : List String) (impl : List String) : String :=
         | .unmodelled => "SKIP reason=grammar"
         | _ => "BAD"
 
+/-! ### osfs: the filesystem contract the processor model assumes, on the real adapter -/
+
+def insertSorted (x : String) : List String → List String
+  | [] => [x]
+  | y :: ys => if x < y then x :: y :: ys else y :: insertSorted x ys
+
+def osfsStep (files : List (String × Int)) (st : String) : Option (List (String × Int) × String) :=
+  match st.splitOn ":" with
+  | ["w", n] => (stringOfHex? n).map fun name =>
+      (if files.any (·.1 == name) then files else files ++ [(name, 0)], "w")
+  | ["h", n, _, m] => do
+      let name ← stringOfHex? n
+      let mt ← int? m
+      if files.any (·.1 == name) then some (setMtime files name mt, "h:ok") else some (files, "h:err")
+  | ["s", n] => (stringOfHex? n).map fun name =>
+      match files.find? (·.1 == name) with
+      | some (_, mt) => (files, if mt == 0 then "s:ok:*" else s!"s:ok:{mt}")
+      | none => (files, "s:enoent")
+  | ["r", n] => (stringOfHex? n).map fun name =>
+      if files.any (·.1 == name) then (files.filter (fun q => !decide (q.1 = name)), "r:ok") else (files, "r:err")
+  | ["t", _] => some (files, "t:true")
+  | ["d"] => some (files, "d:" ++ String.intercalate "+" ((files.map (·.1)).foldr insertSorted [] |>.map hexOfString))
+  | _ => none
+
+def handleOsfs (seq : String) (impl : List String) : String :=
+  let rec go (files : List (String × Int)) (sts : List String) (acc : List String) : Option (List String) :=
+    match sts with
+    | [] => some acc.reverse
+    | st :: rest =>
+      match osfsStep files st with
+      | some (files', o) => go files' rest (o :: acc)
+      | none => none
+  match go [] (seq.splitOn ",") [], impl with
+  | some want, [got] =>
+    let gs := got.splitOn ","
+    let same := want.length == gs.length ∧ (want.zip gs).all fun (w, g) =>
+      w == g || (w == "s:ok:*" && g.startsWith "s:ok:")     -- a freshly written file has "now" as mtime
+    if same then "OK nt=1" else s!"VIOL clause=gp.osfs spec={String.intercalate "," want}"
+  | some _, _ => if impl.head? = some "panic" then "VIOL clause=gp.no_crash" else "BAD"
+  | none, _ => "BAD"
+
 def handle (args : List String) (impl : List String) : String :=
   match args with
+  | ["osfs", seq] => handleOsfs seq impl
   | ["match", m, hex] => handleMatch m hex impl
   | ["validate", chs] => handleValidate chs impl
   | ["args", as] => handleArgs as impl
